@@ -315,6 +315,18 @@ def canon_temp(p, victims, existing=()):
     m = TEMP_RE.match(p)
     if m and m.group(1) in victims:
         return m.group(1) + b".tmp~"
+    if m:
+        # a victim whose name is longer than 230 bytes is parked under a SHORTENED name (cut at a character boundary)
+        d, stem = os.path.split(m.group(1))
+        if len(stem) >= 200:
+            for v in victims:
+                vd, vn = os.path.split(v)
+                if vd == d and len(vn) > 230:
+                    cut = 230
+                    while cut > 0 and (vn[cut] & 0xC0) == 0x80:
+                        cut -= 1
+                    if vn[:cut] == stem:
+                        return v + b".tmp~"
     return p
 
 
